@@ -20,14 +20,19 @@
   invariants.
 
   * `HeapRefinement_statement` — the full statement (init, share, erase, load, store), a `def : Prop`.
-  * PROVED: `C09R_share`, `C09R_erase`, `C09R_load` (both paths of the emitted code: release / share —
-    when an abstractly unique object is still referenced by a block that is alive only at block level,
-    the emitted code takes the shared path although the abstract machine frees the object; the results
-    are related all the same), `C09R_count` (the counting lemma), `C09R_chains_live` (every block of
-    every abstract object is live at block level).
-  * NOT yet proved: `store` (`HeapRefinement_store_statement`) and `init`.
+  * PROVED, all of it: `C09R_heap_refinement : HeapRefinement_statement`, from `C09R_init`, `C09R_share`,
+    `C09R_erase`, `C09R_load` (both paths of the emitted code: release / share — when an abstractly
+    unique object is still referenced by a block that is alive only at block level, the emitted code
+    takes the shared path although the abstract machine frees the object; the results are related all
+    the same), `C09R_store` (`Memory::store` of the images of the fields of a new object, chains of any
+    length; the address map is extended at the fresh id by the pointer returned; needs room for the
+    blocks in the sense of C10: frontier + 64·(fields + 1) ≤ limit).  Also `C09R_count` (the counting
+    lemma) and `C09R_chains_live` (every block of every abstract object is live at block level).
+  * NOT covered here (the next layer): that the abstract operations are the ones Theorem A's steps
+    perform and that the block-level operations are what the emitted instruction sequences compute
+    (the latter: the memory contracts Scc/X86/MemProofs*, Scc/A64/MemProofs*, Scc/RV/MemProofs*).
 -/
-import Scc.Heap.RefineLoad
+import Scc.Heap.RefineStoreObj
 
 namespace Scc.Heap.Refine
 
@@ -64,7 +69,7 @@ def HeapRefinement_store_statement : Prop :=
   ∀ (h : Heap) (rsKeep : List Nat) (next : Nat) (s : HState) (ι : Nat → Nat) (o : Obj),
     o.count = 0 → o.fields ≠ [] → next < 2 ^ 64 →
     HRef h (rsKeep ++ o.children) next s ι →
-    (∀ lin lazy live F, InvS s ((rsKeep ++ o.children).map ι) [] lin lazy live F →
+    (∃ lin lazy live F, InvS s ((rsKeep ++ o.children).map ι) [] lin lazy live F ∧
       F + 64 * o.fields.length + 64 ≤ s.limit) →
     ∃ s' p, storeObj s (o.fields.map (fieldImg ι)) = .ok (s', p) ∧
       HRef ((next, o) :: h) (rsKeep ++ [next]) (next + 1) s' (fun i => if i = next then p else ι i)
@@ -109,7 +114,36 @@ theorem C09R_init : HeapRefinement_init_statement := by
     simp [Scc.Backend.Sim.refCount] at hid
   · exact ⟨[base], [], [], base + 64, init_inv hb hl⟩
 
-/-! ## non-vacuity: a one-object heap -/
+theorem C09R_store : HeapRefinement_store_statement :=
+  fun _ _ _ _ _ _ hc hne hn R hroom => href_store hc hne hn R hroom
+
+/-- THE HEAP REFINEMENT holds -/
+theorem C09R_heap_refinement : HeapRefinement_statement :=
+  ⟨C09R_init, C09R_share, C09R_erase, C09R_load, C09R_store⟩
+
+/-! ## non-vacuity -/
+
+/-- an object with one integer field and one null pointer field -/
+def exObj : Obj := { count := 0, fields := [{ chi := .ext, ptr := 0, val := 7 }, { chi := .prd, ptr := 0, val := 5 }] }
+
+/-- storing `exObj` into the initial heap and loading it again: both block-level operations succeed,
+the fields come back, and the final state represents the abstract heap after the abstract `load` -/
+example : ∃ s1 p h2 s2, storeObj (init 4096 8192) [Field.int 7, Field.ptr 0 5] = .ok (s1, p) ∧
+    loadAbs [(1, exObj)] 1 exObj = .ok h2 ∧
+    loadObj s1 p [false, true] = .ok (s2, [Field.int 7, Field.ptr 0 5]) ∧
+    HRef h2 [] 2 s2 (fun i => if i = 1 then p else 0) := by
+  have R0 := C09R_init 4096 8192 (fun _ => 0) (by decide) (by decide)
+  obtain ⟨s1, p, h1, R1⟩ := C09R_store [] [] 1 (init 4096 8192) (fun _ => 0) exObj rfl (by simp [exObj])
+    (by decide) (by simpa [exObj, Obj.children] using R0)
+    ⟨[4096], [], [], 4096 + 64, by
+      have := init_inv (base := 4096) (limit := 8192) (by decide) (by decide)
+      simpa [exObj, Obj.children] using this, by simp [exObj]; decide⟩
+  obtain ⟨h2, s2, e1, e2, R2⟩ := C09R_load _ [] 2 s1 _ 1 exObj (by simpa using R1) (by rfl)
+  refine ⟨s1, p, h2, s2, ?_, e1, ?_, by simpa [exObj, Obj.children] using R2⟩
+  · exact h1
+  · exact e2
+
+/-! ## non-vacuity: sharing the null reference -/
 
 /-- the initial block-level heap represents the empty abstract heap, and after sharing the null
 reference it still does (the degenerate instance of `C09R_share`) -/
@@ -128,3 +162,5 @@ end Scc.Heap.Refine
 #print axioms Scc.Heap.Refine.C09R_count
 #print axioms Scc.Heap.Refine.C09R_chains_live
 #print axioms Scc.Heap.Refine.C09R_init
+#print axioms Scc.Heap.Refine.C09R_store
+#print axioms Scc.Heap.Refine.C09R_heap_refinement
